@@ -10,7 +10,7 @@
 (***************************************************************************)
 EXTENDS MC_C01, VMRefine
 
-CONSTANTS MaxV, WithIntr
+CONSTANTS MaxV, WithIntr, IntrWin
 
 VARIABLES v, vsteps, ph
 vvars == <<m, prog, steps, cmds, v, vsteps, ph>>
@@ -35,7 +35,8 @@ VCont == /\ v.wait = "stopped" /\ ph = 0 /\ m.mode = "ready" /\ m.cont # NoCont 
          /\ ph' = 1 /\ vsteps' = 0 /\ cmds' = Append(cmds, CDirect(<<SCont>>))
          /\ UNCHANGED <<prog, steps>>
 \* C13 at the opcode level: an interrupt at any opcode boundary of the first run, then CONT
-VIntr == /\ WithIntr /\ v.wait = "" /\ ph = 0 /\ v.st \in {"Running", "InputRunning"} /\ v.pc < v.entry
+\* (only within the first IntrWin steps: a looping program is interrupted in its first rounds)
+VIntr == /\ WithIntr /\ v.wait = "" /\ ph = 0 /\ v.st \in {"Running", "InputRunning"} /\ v.pc < v.entry /\ vsteps <= IntrWin
          /\ v' = VInterrupt(v) /\ ph' = 2 /\ vsteps' = 0
          /\ UNCHANGED <<m, prog, steps, cmds>>
 VResume == /\ ph = 2 /\ v.wait = "stopped"
